@@ -12,7 +12,7 @@ CLAIMED = {
    note="Covers 'valid file + storage faults', not arbitrary byte strings nor grammar-generated texts; resource constants are deliberately loose bounds against unboundedness."),
  "C02": dict(level="exploration", design="DESIGN.md §4.4",
    technique="deterministic simulation of successive writers appending revisions to an append-only medium, crash points at every revision boundary; log-replay ordering check against a 'newest mention wins' map model",
-   text="Seeded update histories (1-8 revisions, 3-12 object numbers; classic tables and xref streams with arbitrary subsection / Index splits, W widths incl. width 0, filters (stored Flate, ASCIIHex, LZW, ASCII85 with short final groups, ASCIIHex over Flate) and predictors; objects direct, compressed in one or two object streams, freed with generation+1, reused; Size growth; moving Root; trailers with and without /Info; one history in five RC4-encrypted with the harness's own security handler) written by the harness's independent writer and cross-checked by its strict reader; the library opens the medium after every append in strict+uncached and tolerant+cached mode and every object number below /Size plus the trailer is compared with the model. Sampling, not proof.",
+   text="Seeded update histories (1-8 revisions, 3-12 object numbers; classic tables and xref streams with arbitrary subsection / Index splits, W widths incl. width 0, filters (stored Flate, ASCIIHex, LZW, ASCII85 with short final groups, ASCIIHex over Flate) and predictors (rows declared as 8-bit, two-colour, 16-bit or 4-bit samples); objects direct, compressed in one or two object streams, freed with generation+1, reused; Size growth; moving Root; trailers with and without /Info; one history in five RC4-encrypted with the harness's own security handler) written by the harness's independent writer and cross-checked by its strict reader; the library opens the medium after every append in strict+uncached and tolerant+cached mode and every object number below /Size plus the trailer is compared with the model. Sampling, not proof.",
    note="Trusted: the harness writer + strict reader. Torn final appends, hybrid files and generation-rule violations are outside the statement."),
  "C09": dict(level="exploration", design="DESIGN.md §4.3",
    technique="deterministic simulation of a store (put/read/sync/restart) with injected save failures and refusing sinks; step-by-step refinement against a map model, durability and prefix checks after every successful save",
